@@ -78,7 +78,7 @@ func c19check(adds []c19add, mutable, walStore *lib.MemStore, tag string, viol f
 	for _, a := range ok {
 		froms[a.Token] = true
 		if k, err := ksuid.Parse(a.Token); err == nil {
-			for _, d := range []time.Duration{-time.Second, time.Second, 30 * time.Minute, -30 * time.Minute} {
+			for _, d := range []time.Duration{-time.Second, time.Second, 15 * time.Minute, 20*time.Minute - time.Second, 20 * time.Minute, 20*time.Minute + time.Second, 30 * time.Minute, -30 * time.Minute} {
 				if s, err := ksuid.FromParts(k.Time().Add(d), make([]byte, 16)); err == nil {
 					froms[s.String()] = true
 				}
@@ -178,7 +178,7 @@ func TestC19(t *testing.T) {
 }
 
 func c19body(t *testing.T, rep *lib.Report, journal func(string)) {
-	rep.Rule = "sequential: all histories of <=3 Add over payloads {empty, a, two lines, YAML-looking, 1504 bytes} x a 1s-tick choice between steps, real wal.WAL over the reference store inside a synctest bubble; concurrent: 2 (thorough 3) appenders with Touch/GetAttr/Put gated, all interleavings + tick placements; after each history ListEntries from every issued token and synthetic tokens (±1s, ±30min) x max in {1,2,3,1000}; oracle: unique KSUID tokens ordered across seconds, listing = appended entries with token >= back-dated start, token order, payload byte-identical; distinct = distinct histories/outcomes"
+	rep.Rule = "sequential: all histories of <=3 Add over payloads {empty, a, two lines, YAML-looking, 1504 bytes} x a 1s-tick choice between steps, real wal.WAL over the reference store inside a synctest bubble; concurrent: 2 (thorough 3) appenders with Touch/GetAttr/Put gated, all interleavings + tick placements; after each history ListEntries from every issued token and synthetic tokens (±1s, +15min, +20min-1s, +20min, +20min+1s, ±30min: inside, at the edges of and beyond the 20-minute look-back window) x max in {1,2,3,1000}; oracle: unique KSUID tokens ordered across seconds, listing = appended entries with token >= back-dated start, token order, payload byte-identical; distinct = distinct histories/outcomes"
 	names := []string{"empty", "a", "twolines", "yamlish", "big"}
 	// ---- sequential histories
 	var hist [][]string
